@@ -77,7 +77,10 @@ Observed but outside the literal text of any property (modelled as-is, no alarm)
 asymmetric distance matrix (uses dist[j][l] twice), `magic_square`'s uniqueness constraint is necessary but not
 sufficient for distinct entries, `cross_zero=True` admits every sum in 0..ub_c-lb_c, the constant of the 'unbalanced'
 penalisation, `gnm_random_bqm` always picking the first m pairs, `doped` dropping isolated declared nodes, a CQM does
-not accept a BQM view (`cqm.set_objective(bqm.spin)` raises TypeError), `Variables([2**64+1])` raises OverflowError.
+not accept a BQM view (`cqm.set_objective(bqm.spin)` raises TypeError), `Variables([2**64+1])` raises OverflowError,
+`BQM('SPIN').add_quadratic(np.int64(123), ('x', -3), 1.0)` raises NumPy's ambiguous-truth-value ValueError (the `u == v`
+self-loop test of the model builders is not hash-first; such a model cannot be built at all, so the generators keep bare
+NumPy-scalar labels and tuple labels apart).
 
 False alarms met while building (corrected in the machinery, never listed as findings): duplicate labels in a
 generated label list (2.5 and np.float32(2.5) are one label), a catalogue entry that was legal in some states
